@@ -163,6 +163,14 @@ pub struct Obs {
     pub rc_shifts: u64,
     pub rc_carries: u64,
     pub rc_max_cachesz: u32,
+    /// when the harness knows pb: probability-context coverage as decoded
+    pub pb: Option<u32>,
+    /// is_match context: [state][pos_state]
+    pub ctx_is_match: [[u32; 16]; 12],
+    /// length coder context: [0 = match, 1 = rep][class low/mid/high][pos_state]
+    pub ctx_len: [[[u32; 16]; 3]; 2],
+    /// distance slot context: [len_state][slot]
+    pub ctx_slot: [[u32; 64]; 4],
 }
 
 impl Default for Obs {
@@ -200,6 +208,10 @@ impl Default for Obs {
             rc_shifts: 0,
             rc_carries: 0,
             rc_max_cachesz: 0,
+            pb: None,
+            ctx_is_match: [[0; 16]; 12],
+            ctx_len: [[[0; 16]; 3]; 2],
+            ctx_slot: [[0; 64]; 4],
         }
     }
 }
@@ -265,6 +277,19 @@ impl Obs {
                 if kind == verif::SYM_MATCH {
                     let slot = crate::refmodel::lzma::dist_slot((dist - 1) as u32);
                     self.slots[slot as usize] += 1;
+                }
+                if let Some(pb) = self.pb {
+                    let ps = (out_len & ((1u64 << pb) - 1)) as usize;
+                    self.ctx_is_match[(state_before as usize).min(11)][ps] += 1;
+                    if kind == verif::SYM_MATCH || kind == verif::SYM_REP || kind == verif::SYM_EOS {
+                        let class = if len < 10 { 0 } else if len < 18 { 1 } else { 2 };
+                        self.ctx_len[(kind == verif::SYM_REP) as usize][class][ps] += 1;
+                    }
+                    if kind == verif::SYM_MATCH {
+                        let ls = (len.saturating_sub(2)).min(3) as usize;
+                        let slot = crate::refmodel::lzma::dist_slot((dist - 1) as u32) as usize;
+                        self.ctx_slot[ls][slot] += 1;
+                    }
                 }
                 self.last_sym = Some((kind, len, dist, out_len));
                 if self.record_syms {
